@@ -7,7 +7,7 @@ ALG = ["algebra/main.cpp"] + ["algebra/c%s.cpp" % n for n in ("01", "02", "03", 
 
 SOLVER = ["solver/main.cpp", "solver/c04.cpp", "solver/c05.cpp", "solver/c10.cpp", "solver/c17.cpp"]
 
-LIFE = ["life/main.cpp", "life/c14.cpp", "life/c16.cpp", "life/stubs.cpp", "common/ledger.cpp"]
+LIFE = ["life/main.cpp", "life/c14.cpp", "life/c16.cpp", "life/interp.cpp", "life/stubs.cpp", "common/ledger.cpp"]
 
 PROPS = {
     "C01": dict(
@@ -164,6 +164,32 @@ PROPS = {
         floors=dict(quick={"injections": 1000, "allocation_points": 1000}, thorough={"injections": 1000}),
         assumptions=["only operator new/new[] failures are injected (the property is about std::bad_alloc); GSL's own malloc failures are outside it", "allocations by the harness inside the window (the unique_ptr's object) are extra injection points and harmless"],
     ),
+    "C08": dict(
+        harness="h_life", sources=LIFE, level="exploration",
+        variants=dict(quick=[V("asan", 8, 0.4), V("opt", 8)], thorough=[V("asan", 8, 0.3), V("opt", 8), V("optavx", 4, 0.5)]),
+        rule="random histories of 6-45 operations over 4-8 vector slots and 2-3 user buffers (exact-size heap blocks, some deliberately misaligned), dimensions drawn from three values in 2..6 per "
+             "history: construct (default, sized, list, external, copy, move, from an expression with lvalue/rvalue operands), destroy, copy/move assignment between every pair of slot kinds, "
+             "T (=|+=|-=) expression over 19 expression shapes, SetBackingStore, element writes, ==, compound assignment; moved-from and consumed operands become 'unspecified' and then only "
+             "receive the four follow-ups the property lists (assign to, compare, move from again, destroy). After every step: each specified vector has the model's dimension and bitwise the "
+             "model's values (so an operation on one vector that changes another is seen), external vectors are bound to their buffer, owned storage is disjoint and outside user buffers, "
+             "ownership-flag invariants through the hook, user buffers equal their modelled image, documented exceptions exactly when the model says; ledger empty at the end.",
+        floors=dict(quick={"steps": 100000, "consumed_operands": 3000, "op.assign_to_unspecified": 1000, "op.move_from_unspecified_again": 500, "op.destroy_unspecified": 500, "op.compare_unspecified": 300,
+                           "op.set_backing_store": 1000, "op.move_assign": 2000, "op.copy_assign_rejected": 100},
+                    thorough={"steps": 3000000}),
+        assumptions=["where the property leaves an outcome open (is a moved-from externally backed vector still bound?) the monitor reads the answer (Dim(), address of element 0) instead of prescribing one"],
+    ),
+    "C15": dict(
+        harness="h_life", sources=LIFE, level="exploration",
+        variants=dict(quick=[V("asan", 12, 0.5), V("opt", 4)], thorough=[V("asan", 12, 0.5), V("opt", 4), V("align", 4, 0.5)]),
+        rule="the C08 interpreter with the wide catalogue: histories of 20-120 operations adding rotations (both forms), RotateToB0/B1, UTransform (both), UDaggerTransform, WeightedRotation (both), "
+             "Real/Imag/Transpose, conversions to and from GSL matrices and component lists, GetEigenSystem, factories, evolution tables and both filters on exact-size heap tables, stream output, "
+             "16 kinds of calls that end in a library exception, and solver objects (construct, grid, evolve, move-construct, move-assign onto a used solver, query incl. rejected queries, re-init, "
+             "destroy). Oracles are the generic ones only: ASan/UBSan silence, ledger invariants after every step, ownership-flag invariants, ledger empty after final destruction and cache drain, "
+             "LeakSanitizer at exit (GSL's malloc'ed objects).",
+        floors=dict(quick={"steps": 50000, "op.producer": 5000, "op.inplace": 1000, "op.tables": 1000, "op.throwing": 1000, "op.solver": 1000, "exceptions.library": 800, "exceptions.solver": 2000},
+                    thorough={"steps": 2000000}),
+        assumptions=["red-zone sanitizers miss non-adjacent overflows; user storage is therefore exact-size and the model compares every buffer with its image after each step"],
+    ),
 }
 
 
@@ -221,3 +247,22 @@ for _k, (_lt, _ln, _te) in _T.items():
         PROPS[_k]["level_note"] = _ln
         PROPS[_k]["technique"] = _te
         PROPS[_k]["design_ref"] = "DESIGN.md section 4-7 (" + _k + ")"
+_T2 = {
+    "C08": ("Random operation histories on the real class with a shadow ownership model; after every step all live vectors are compared bitwise with the model, so the realistic failure (an operation on one vector changing another) is observed when it happens; ASan sees stale pointers.",
+            "Trusted: the shadow model (harness/life/interp.cpp). Where the property leaves the outcome open the monitor reads it. Leak freedom is not judged here (C15).",
+            "runtime monitoring: history interpreter with shadow ownership model, 'everyone else unchanged' check, ownership-flag invariants via hook, allocation ledger, ASan/UBSan"),
+    "C14": ("The stated window is enumerated completely (1440 binary cells + all constructor/factory arguments); each cell must throw with operands bitwise intact, and operands on exact-size heap blocks make any read past the smaller operand an ASan report.",
+            "Trusted: ASan red zones adjoining exact-size blocks; clang/gcc UBSan bounds check for the per-dimension cache array.",
+            "runtime monitoring: exhaustive must-throw + operands-unchanged oracle under ASan/UBSan with exact-size operand blocks"),
+    "C15": ("Long random histories over the widest catalogue, judged only by generic oracles: sanitizer silence, ledger invariants after each step, no live array block after everything is destroyed and the cache drained, LeakSanitizer at exit.",
+            "Trusted: ASan/UBSan/LSan; the ledger tracks every operator new[] block (all library storage is array-form); per-thread scratch vectors of the interpolating queries are created before baselines are taken.",
+            "runtime monitoring: sanitizers (ASan, UBSan, LSan, clang alignment/unreachable) + allocation ledger over random histories incl. throwing calls and solver objects"),
+    "C16": ("Systematic fault injection: for every catalogue operation, dims pair and cache state, each allocation attempt inside the call is failed in turn and the post-state is examined and exercised (reassign, destroy, drain).",
+            "Trusted: the interposed operator new/new[] sees every allocation of the process; GSL's internal malloc is not failed (the property is about std::bad_alloc).",
+            "fault enumeration by allocation count-down in interposed operator new, ledger + ownership-flag invariants + ASan after each injected fault"),
+}
+for _k, (_lt, _ln, _te) in _T2.items():
+    if _k in PROPS:
+        PROPS[_k]["level_text"] = _lt; PROPS[_k]["level_note"] = _ln; PROPS[_k]["technique"] = _te
+        PROPS[_k]["design_ref"] = "DESIGN.md section 6 (" + _k + ")"
+ENGINE_TEXT["h_life"] = "C++ harness linked with an allocation ledger / fault injector interposed on operator new/delete: history interpreter with shadow ownership model (C08, C15), exhaustive mismatch table (C14), fault enumeration (C16), fused-vs-naive differential (C09)"
